@@ -18,6 +18,7 @@ import (
 	"strings"
 	"sync"
 	"sync/atomic"
+	"time"
 	"unsafe"
 
 	"github.com/csgura/fp"
@@ -848,6 +849,7 @@ func main() {
 		ns = *n / 10
 	}
 	checks += stress(sink, r, ns)
+	checks += facadeAtomic(sink)
 	sink.Close()
 	fmt.Printf("{\"cases\": %d, \"direct_checks\": %d, \"direct_failures\": %d, \"histogram\": {", sink.N, checks, sink.DirectFailures)
 	keys := []string{}
@@ -862,4 +864,44 @@ func main() {
 		fmt.Printf("%q: %d", k, hist[k])
 	}
 	fmt.Println("}}")
+}
+
+// facadeAtomic (C19; seed C19-14 of round 5): the operations reach a CopyOnWriteMap also through the fp.Map facade
+// (fp.MakeMap(cow)).  fp.Map.UpdatedWith delegates to the base's own atomic UpdatedWith only if the base implements
+// fp.MapBaseUpdatedWith; otherwise it falls back to Get, remap, Updated - three separate steps, between which a complete update of
+// another goroutine is lost.  Deterministic: thread A's remap function gives thread B 100 ms to perform its whole update.  With
+// the atomic implementation B is blocked by the writer lock until A is done (A's wait times out): both increments survive.
+func facadeAtomic(sink *Sink) int {
+	checks := 0
+	inc := func(o fp.Option[int]) fp.Option[int] { return fp.Some(o.OrElse(0) + 1) }
+	for rep := 0; rep < 3; rep++ {
+		m := &mutable.CopyOnWriteMap[int, int]{}
+		fm := fp.MakeMap[int, int](m)
+		startB, bDone := make(chan struct{}), make(chan struct{})
+		go func() {
+			<-startB
+			fm.UpdatedWith(0, inc)
+			close(bDone)
+		}()
+		fm.UpdatedWith(0, func(o fp.Option[int]) fp.Option[int] {
+			close(startB)
+			select {
+			case <-bDone:
+			case <-time.After(100 * time.Millisecond):
+			}
+			return inc(o)
+		})
+		select {
+		case <-bDone:
+		case <-time.After(5 * time.Second):
+			sink.DirectFail("CopyOnWriteMap.facade-lost-update", "(law facade-UpdatedWith-atomic)", "the second UpdatedWith through fp.MakeMap(cow) never returned")
+			return checks + 1
+		}
+		checks++
+		if got := m.Get(0); !got.IsDefined() || got.Get() != 2 {
+			sink.DirectFail("CopyOnWriteMap.facade-lost-update", "(law facade-UpdatedWith-atomic)",
+				fmt.Sprintf("two increments through fp.MakeMap(cow).UpdatedWith, the second performed entirely while the first one's remap function runs: counter %s, want 2 (no sequential order of the two calls explains it)", Show(got)))
+		}
+	}
+	return checks
 }
